@@ -4,6 +4,9 @@
 #define MuscleMutex_h
 
 #include "support/MuscleSupport.h"  // needed for WIN32 defines, etc
+#ifdef MUSCLE_VERIF_HOOKS
+# include "support/MuscleVerifHooks.h"
+#endif
 #include "support/NotCopyable.h"
 #include "util/NestCount.h"
 #include "util/OutputPrinter.h"
@@ -274,6 +277,9 @@ private:
 #ifndef MUSCLE_SINGLE_THREAD_ONLY
       if (_isEnabled == false) return B_NO_ERROR;
 #endif
+#ifdef MUSCLE_VERIF_HOOKS
+      if (GetMuscleVerifHooksRef()) GetMuscleVerifHooksRef()->mutexLock(this);
+#endif
 
 #ifdef MUSCLE_SINGLE_THREAD_ONLY
       return B_NO_ERROR;
@@ -308,6 +314,9 @@ private:
 #ifndef MUSCLE_SINGLE_THREAD_ONLY
       if (_isEnabled == false) return B_NO_ERROR;
 #endif
+#ifdef MUSCLE_VERIF_HOOKS
+      if (GetMuscleVerifHooksRef()) GetMuscleVerifHooksRef()->mutexTryLock(this);
+#endif
 
 #ifdef MUSCLE_SINGLE_THREAD_ONLY
       return B_NO_ERROR;
@@ -339,6 +348,9 @@ private:
       return B_NO_ERROR;
 #elif !defined(MUSCLE_AVOID_CPLUSPLUS11)
       _locker.unlock();
+#ifdef MUSCLE_VERIF_HOOKS
+      if (GetMuscleVerifHooksRef()) GetMuscleVerifHooksRef()->mutexUnlock(this);
+#endif
       return B_NO_ERROR;
 #elif defined(MUSCLE_USE_PTHREADS)
       return B_ERRNUM(pthread_mutex_unlock(&_locker));
